@@ -134,6 +134,10 @@ class StorageBase(metaclass=ABCMeta):
             time (float, optional):
                 The time point
         """
+        if self.write_mode == "readonly":
+            msg = "Cannot write in read-only mode"
+            raise RuntimeError(msg)
+
         if time is None:
             time = 0 if len(self) == 0 else self.times[-1] + 1
 
@@ -142,6 +146,13 @@ class StorageBase(metaclass=ABCMeta):
         elif self._grid != field.grid:
             msg = f"Grids incompatible ({self._grid} != {field.grid})"
             raise ValueError(msg)
+        if self._dtype is not None and not np.can_cast(
+            field.dtype, self._dtype, casting="same_kind"
+        ):
+            # reading casts the data to the dtype of the storage, which would, e.g.,
+            # silently drop the imaginary part of complex data
+            msg = f"Cannot store data of type {field.dtype} as {np.dtype(self._dtype)}"
+            raise TypeError(msg)
         return self._append_data(field.data, time)
 
     def clear(self, clear_data_shape: bool = False) -> None:
